@@ -3,12 +3,13 @@ import FastorModel.Driver.Einsum
 import FastorModel.Driver.Expr
 import FastorModel.Driver.Lazy
 import FastorModel.Driver.Config
+import FastorModel.Driver.Views
 /-
   `fmodel`: line-protocol driver.  Reads one case per line on stdin, prints the model's observables
   for it.  The harness prints the implementation's observables for the same case in the same format.
   Command handlers live in FastorModel/Driver/*.lean (no Mathlib imports there, so that this links).
 -/
-open Fastor Fastor.Driver
+open Fastor Fastor.Driver Fastor.Driver.ViewsCmd
 
 def step (line : String) : String :=
   match line.trimAscii.toString.splitOn " " with
@@ -19,6 +20,9 @@ def step (line : String) : String :=
   | "expr" :: rest => runExpr (parseKV rest)
   | "lazy" :: rest => runLazy (parseKV rest)
   | "config" :: rest => runConfig (parseKV rest)
+  | "view" :: rest => runView (parseKV rest)
+  | "sidx" :: rest => runSidx (parseKV rest)
+  | "iseq" :: rest => runIseq (parseKV rest)
   | _ => "bad-op"
 
 partial def loop (h : IO.FS.Stream) (out : IO.FS.Stream) : IO Unit := do
